@@ -128,7 +128,7 @@ def run_job(job):
                             op_["module"] = vprogs.PKG
                         seg["ops"].append(op_)
                 elif how == "setvar":
-                    seg["ops"].append({"op": "setvar", "name": n["name"], "val": n["val"]})
+                    seg["ops"].append({"op": "setvar", "name": n["name"], "val": n["val"], "tuple": bool(n.get("tuple"))})
                 elif how == "mutate":
                     seg["ops"].append({"op": "mutate", "name": n["name"], "val": n["val"]})
                 elif how == "delname":
